@@ -34,7 +34,8 @@ FD_METHODS = ["geometric_mean", "arithmetic_mean", "squared_average", "quadratic
               "effective_amplitude_spectrum", "total_horizontal_energy", "vector_summation",
               "maximum_horizontal_value"]
 AZIMUTHS = [0, 30, 90, 135, 180, -45, 400]
-AZ_SETS = {"two": [0, 90], "four": [0, 45, 90, 135], "twelve": list(range(0, 180, 15))}
+AZ_SETS = {"two": [0, 90], "four": [0, 45, 90, 135], "twelve": list(range(0, 180, 15)),
+           "shuffled": [90, 0, 135, 45]}        # not ascending: row i must belong to the caller's i-th azimuth
 PERCENTILES = [50, 0, 25, 100]
 
 WINDOWS = [     # (ns, ew, vt signal names, L, dt, scale)
